@@ -28,12 +28,11 @@ Qed.
 Definition set_vals (sets : list (string * vexpr)) : list value :=
   map (fun sv => match snd sv with XLit v => v | _ => VNull end) sets.
 
-(* (ii) column names of a new table are pairwise distinct (a tuple is a map by column name);
+(* (ii) [no longer a hypothesis: a CREATE TABLE naming a column twice is refused by the code]
    (iii) literals are Go values: integers within int64, strings shorter than 2^32 bytes.
    Statements naming sys_pages / sys_schema need no exclusion: the code refuses them. *)
 Definition stmt_ok (st : stmt) : bool :=
   match st with
-  | SCreateTable n cols => nodupb (map cd_name cols)
   | SInsert n _ rows => forallb (forallb val_ok) rows
   | SUpdate n sets _ => forallb val_ok (set_vals sets)
   | _ => true
@@ -65,7 +64,8 @@ Qed.
 
 Lemma st_create_table_free_mono s n fds : nextFree s <= nextFree (fst (st_create_table s n fds)).
 Proof.
-  unfold st_create_table. destruct (rel_offset s n) as [o|e|]; cbn [fst]; try lia.
+  unfold st_create_table. destruct (names_distinct _); [|cbn [fst]; lia]. unfold st_create_table0.
+  destruct (rel_offset s n) as [o|e|]; cbn [fst]; try lia.
   destruct e; cbn [fst]; try lia.
   unfold create_page. cbv zeta.
   set (s1 := mkStore _ _ _ _ _).
@@ -137,14 +137,15 @@ Lemma run_stmt_rep s d st c :
 Proof.
   intros HR Hst Hmax Hout. destruct st as [q|n cds|n| |n|n cols rows|n sets w|n w]; try (cbn in Hout; discriminate).
   - (* CREATE TABLE *)
-    cbn [stmt_ok] in Hst. apply nodupb_NoDup in Hst. rename Hst into Hnd. cbn [run_stmt] in *.
+    clear Hst. cbn [run_stmt] in *.
     destruct (is_sys n) eqn:Hsys.
-    { exfalso. destruct (rel_offset_sys s d n HR Hsys) as [o Eo]. unfold st_create_table in Hout. rewrite Eo in Hout.
-      cbn in Hout. discriminate. }
+    { exfalso. destruct (rel_offset_sys s d n HR Hsys) as [o Eo]. unfold st_create_table, st_create_table0 in Hout.
+      rewrite Eo in Hout. destruct (names_distinct _); cbn in Hout; discriminate. }
     destruct (st_create_table s n (map fielddef_of cds)) as [s1 [[]|e|]] eqn:Ec; cbn [e_store e_out] in *; try discriminate.
     assert (Hmax1 : nextFree s1 <= OFFMAX) by exact Hmax.
-    destruct (st_create_table_rep s d n (map fielddef_of cds) s1 HR Hsys ltac:(rewrite names_fielddefs; exact Hnd) Hmax1 Ec) as [Hf HR1].
-    unfold spec_step. cbn [spec_exec]. rewrite Hf. apply Rep_flush. exact HR1.
+    destruct (st_create_table_rep s d n (map fielddef_of cds) s1 HR Hsys Hmax1 Ec) as (Hnd & Hf & HR1).
+    rewrite names_fielddefs in Hnd.
+    unfold spec_step. cbn [spec_exec]. rewrite Hnd. cbn [negb]. rewrite Hf. apply Rep_flush. exact HR1.
   - (* INSERT *)
     cbn [stmt_ok] in Hst. rename Hst into Hv.
     assert (Hvals : Forall (Forall val_okP) rows).
